@@ -105,7 +105,7 @@ fn explore_rel(t: Tier, shard: usize, f: &mut dyn FnMut(&RelCase) -> Verdict) {
             let sk = RSkel { entries: 1, alts: 1 };
             let m = menus(sk);
             let base = 3 + 3 + 2; // index of the relation slots
-            product(&[3, 6, 3, 6, 8], &mut |pv| {
+            product(&[3, 6, VERS.len(), 6, 8], &mut |pv| {
                 let mut v = vec![0usize; m.len()];
                 v[base] = name;
                 for (i, x) in pv.iter().enumerate() {
@@ -368,7 +368,7 @@ impl Prop for RelProp {
     }
     fn bounds(&self, t: Tier) -> Value {
         let per: Vec<Value> = skeletons().iter().map(|sk| json!({"skeleton": sk, "slots": menus(*sk).len(), "k": k_for(t, *sk), "vectors_upper_bound": kdev_count(&menus(*sk), k_for(t, *sk))})).collect();
-        json!({"skeletons": per, "single_relation_parts_product": 3 * 3 * 6 * 3 * 6 * 8, "menus": {"names": NAMES, "archquals": ARCHQUALS, "ops": OPS, "versions": VERS, "archs": ARCHS, "profiles": PROFILES, "separator_ws": SEP_WS, "part_ws": PART_WS, "item_ws": ITEM_WS}})
+        json!({"skeletons": per, "single_relation_parts_product": 3 * 3 * 6 * VERS.len() * 6 * 8, "menus": {"names": NAMES, "archquals": ARCHQUALS, "ops": OPS, "versions": VERS, "archs": ARCHS, "profiles": PROFILES, "separator_ws": SEP_WS, "part_ws": PART_WS, "item_ws": ITEM_WS}})
     }
     fn assumptions(&self) -> Vec<String> {
         vec![
